@@ -15,7 +15,7 @@ from rules import alias_rule
 def run(ctx):
     ctx.clause = ("in abipkgdiff no accumulated status bit is discarded: per-task results and the removed-binary "
                   "bits are OR-ed, never overwritten, on every path to the exit status")
-    ctx.rules = ["R-STATUS/S5", "R-ACCUM", "R-REMOVED", "R-ALIASARG"]
+    ctx.rules = ["R-STATUS/S5", "R-ACCUM", "R-REMOVED", "R-ALIASARG", "R-PKGWALK"]
     P, I, main, rets = sr.analyse_tool(ctx, "abipkgdiff", infeasible=C08.l1_prune)
     unit = P.units[sr.TOOLS["abipkgdiff"]]
     tool_funcs = [f for f in unit.functions if not f.dep and P.funcs.get(f.u) is f]
@@ -25,6 +25,7 @@ def run(ctx):
     n_store = sr.check_accum(ctx, "abipkgdiff", I, stores)
     # R-REMOVED: in compare_prepared_userspace_packages, whenever removed_binaries is appended to,
     # CHANGE|INCOMPATIBLE (12) is contained in every value the function can return afterwards.
+    check_pkgwalk(ctx, P, unit)
     f = P.fn1("compare_prepared_userspace_packages")
     ctx.analysed(f)
     pushes = [n for n in f.nodes() if n["k"] == "CXXMemberCallExpr" and (f.decl(n) or {}).get("n") == "push_back"
@@ -55,3 +56,32 @@ def run(ctx):
     PW = ctx.program(None)
     n_alias = alias_rule.check(ctx, PW, PW.all_funcs(), only_callers=lambda f: f.relfile.endswith("tools/abipkgdiff.cc"))
     ctx.floor("R-ALIASARG", "helpers abipkgdiff calls with aliased in/out arguments", n_alias, 3)
+
+
+
+def check_pkgwalk(ctx, P, unit):
+    """R-PKGWALK: the verdict is accumulated over the binaries of the two packages; which files those are is decided by the
+    fts(3) walks of abipkgdiff.  A package may reach part of its content through a symbolic link to a directory; the entry
+    handler (maybe_update_package_content) keeps a symbolic link only if it resolves to a file, so the walk itself has to
+    follow links: every fts_open() of tools/abipkgdiff.cc passes FTS_LOGICAL (and not FTS_PHYSICAL)."""
+    from engine.facts import walk, call_args
+    n = 0
+    for f in unit.functions:
+        if f.dep or P.funcs.get(f.u) is not f:
+            continue
+        for x in f.nodes():
+            if x["k"] == "CallExpr" and (f.decl(x) or {}).get("n") == "fts_open" and len(call_args(x)) >= 2:
+                exprs = [call_args(x)[1]]
+                for y in walk(call_args(x)[1]):          # flags held in a local: look at its initialiser
+                    if y["k"] == "DeclRefExpr":
+                        exprs += [v["c"][0] for v in f.nodes() if v["k"] == "VarDecl" and v.get("d") == y.get("d") and v.get("c") and v["c"][0] is not None]
+                flags = sorted({y.get("m") for e_ in exprs for y in walk(e_) if (y.get("m") or "").startswith("FTS_")})
+                n += 1
+                ctx.analysed(f)
+                ok = "FTS_LOGICAL" in flags and "FTS_PHYSICAL" not in flags
+                ctx.ob("R-PKGWALK", "%s walks the package following symbolic links" % f.n, ok, f.loc(x),
+                       "fts_open(.., %s)" % "|".join(flags) if ok else
+                       "fts_open(.., %s): a directory that the package reaches through a symbolic link is not descended into (the "
+                       "entry handler drops links that do not resolve to a file), so the binaries behind it are neither compared "
+                       "nor reported as removed" % "|".join(flags))
+    ctx.floor("R-PKGWALK", "fts walks of abipkgdiff", n, 2)
